@@ -86,6 +86,155 @@ theorem ifPresent_never_unspecified (n : Bool) (ifs : CavList B) (els : Action) 
     (prohibits (.ifPresent n ifs els) a).is .resUnspecified = false :=
   Lemmas.ifPresent_never_unspecified n ifs els a
 
+/-! ### which caveats can answer "unspecified", and when -/
+
+/-- the request could name the resource (it implements the getter) but does not (the getter returns nil) -/
+def absent {K} : Option (Option K) → Bool
+  | some none => true
+  | _ => false
+
+/-- The resource a caveat kind is ABOUT is one the request could name but does not: the request exposes
+the getter (and the action, for the kinds read through `resset.Access`) and the getter returns nil — and
+the caveat is a usable resource set (a set mixing the wildcard with other ids is a bad caveat whatever
+the request says).  Every other kind — action masks, validity windows, conditionals, roles, source
+restrictions, identity confinements, third-party / binding / unknown caveats — is about no resource. -/
+def aboutAbsentResource : Cav B → Access → Bool
+  | .organization .., a => a.action.isSome && absent a.org
+  | .apps rs, a => a.action.isSome && absent a.app && !ResSet.mixedWildcard (fun k => k == 0) rs
+  | .volumes rs, a => a.action.isSome && absent a.volume && !ResSet.mixedWildcard (fun k => k.isEmpty) rs
+  | .machines rs, a => a.action.isSome && absent a.machine && !ResSet.mixedWildcard (fun k => k.isEmpty) rs
+  | .machineFeatureSet rs, a => a.action.isSome && absent a.machineFeature && !ResSet.mixedWildcard (fun k => k.isEmpty) rs
+  | .featureSet rs, a => a.action.isSome && absent a.feature && !ResSet.mixedWildcard (fun k => k.isEmpty) rs
+  | .appFeatureSet rs, a => a.action.isSome && absent a.appFeature && !ResSet.mixedWildcard (fun k => k.isEmpty) rs
+  | .clusters rs, a => a.action.isSome && absent a.cluster && !ResSet.mixedWildcard (fun k => k.isEmpty) rs
+  | .storageObjects rs, a => a.action.isSome && absent a.storageObject && !ResSet.mixedWildcard (fun k => k.isEmpty) rs
+  | .mutations .., a => absent a.mutation
+  | .commands .., a => absent a.command
+  | _, _ => false
+
+theorem resset_unspecified_iff {K} (z : K → Bool) (m : K → K → Bool) (rs : ResSet K) (id : Option K) (act : Action) :
+    (ResSet.prohibits z m rs id act).is .resUnspecified = (id.isNone && !ResSet.mixedWildcard z rs) := by
+  unfold ResSet.prohibits
+  cases hm : ResSet.mixedWildcard z rs
+  · cases id with
+    | none => rfl
+    | some id =>
+      simp only [Bool.false_eq_true, ↓reduceIte, Option.isNone_some, Bool.false_and]
+      split
+      · rfl
+      · split <;> rfl
+  · cases id <;> rfl
+
+theorem viaGetter_unspecified_iff {K} (g : Option (Option K)) (action : Option Action)
+    (z : K → Bool) (m : K → K → Bool) (rs : ResSet K) :
+    (viaGetter g action (ResSet.prohibits z m rs)).is .resUnspecified =
+      (action.isSome && absent g && !ResSet.mixedWildcard z rs) := by
+  unfold viaGetter
+  cases g with
+  | none => cases action <;> rfl
+  | some o =>
+    cases action with
+    | none => rfl
+    | some act =>
+      simp only [resset_unspecified_iff, Option.isSome_some, Bool.true_and]
+      cases o <;> rfl
+
+/-- `unspecified_iff`: a caveat answers "resource unspecified" exactly when the resource it is about
+is one the request leaves out (`aboutAbsentResource`).  This is what "concerns a resource the request
+specifies" means in `ifPresent_semantics`: the `applicable` inner caveats are those for which
+`aboutAbsentResource` is false. -/
+theorem unspecified_iff (c : Cav B) (a : Access) :
+    (prohibits c a).is .resUnspecified = aboutAbsentResource c a := by
+  cases c
+  case ifPresent n ifs els => rw [ifPresent_never_unspecified]; rfl
+  case organization id mask =>
+    unfold prohibits; simp only [aboutAbsentResource]
+    cases a.org with
+    | none => cases a.action <;> rfl
+    | some o =>
+      cases a.action with
+      | none => rfl
+      | some act =>
+        cases o with
+        | none => rfl
+        | some oid =>
+          simp only
+          split
+          · rfl
+          · split <;> rfl
+  case apps rs => unfold prohibits ResSet.prohibitsU64; simp only [aboutAbsentResource]; exact viaGetter_unspecified_iff _ _ _ _ _
+  case volumes rs => unfold prohibits ResSet.prohibitsStr; simp only [aboutAbsentResource]; exact viaGetter_unspecified_iff _ _ _ _ _
+  case machines rs => unfold prohibits ResSet.prohibitsStr; simp only [aboutAbsentResource]; exact viaGetter_unspecified_iff _ _ _ _ _
+  case machineFeatureSet rs => unfold prohibits ResSet.prohibitsStr; simp only [aboutAbsentResource]; exact viaGetter_unspecified_iff _ _ _ _ _
+  case featureSet rs => unfold prohibits ResSet.prohibitsStr; simp only [aboutAbsentResource]; exact viaGetter_unspecified_iff _ _ _ _ _
+  case appFeatureSet rs => unfold prohibits ResSet.prohibitsStr; simp only [aboutAbsentResource]; exact viaGetter_unspecified_iff _ _ _ _ _
+  case clusters rs => unfold prohibits ResSet.prohibitsStr; simp only [aboutAbsentResource]; exact viaGetter_unspecified_iff _ _ _ _ _
+  case storageObjects rs => unfold prohibits ResSet.prohibitsPrefix; simp only [aboutAbsentResource]; exact viaGetter_unspecified_iff _ _ _ _ _
+  case mutations ms =>
+    unfold prohibits; simp only [aboutAbsentResource]
+    cases a.mutation with
+    | none => rfl
+    | some o =>
+      cases o with
+      | none => rfl
+      | some m => simp only; split <;> rfl
+  case commands cs =>
+    unfold prohibits; simp only [aboutAbsentResource]
+    cases a.command with
+    | none => rfl
+    | some o =>
+      cases o with
+      | none => rfl
+      | some m => simp only; split <;> rfl
+  case flySrc o ap i =>
+    unfold prohibits; simp only [aboutAbsentResource, firstErr]
+    have hf : ∀ (w : Bytes) (g : Option (Option Bytes)), (flySrcField w g).is .resUnspecified = false := by
+      intro w g; unfold flySrcField
+      split
+      · rfl
+      · split
+        · rfl
+        · rfl
+        · split <;> rfl
+    split
+    · split
+      · split
+        · rfl
+        · exact hf _ _
+      · exact hf _ _
+    · exact hf _ _
+  all_goals
+    unfold prohibits
+    simp only [aboutAbsentResource, allowedRolesProhibits, confineProhibits]
+    repeat' (first | rfl | split)
+
+/-- the inner caveats a conditional applies are those that are not about a resource the request leaves out -/
+theorem applicable_eq (ifs : List (Cav B)) (a : Access) :
+    applicable ifs a = ifs.filter (fun c => !aboutAbsentResource c a) := by
+  unfold applicable
+  apply List.filter_congr
+  intro c _
+  rw [unspecified_iff]
+
+/-- `non_resource_inner_forces_if`: one inner caveat that is not about an absent resource — in
+particular ANY action mask, validity window, nested conditional, role, source or confinement caveat,
+and any third-party, binding or unknown caveat, whatever the request — makes the conditional take its
+if-branch: the else-mask is not consulted, the result is that of the applicable inner caveats, and the
+conditional permits only if that inner caveat does -/
+theorem non_resource_inner_forces_if (ifs : CavList B) (els : Action) (a : Access) (act : Action)
+    (ha : a.action = some act) (c : Cav B) (hc : c ∈ ifs.toList) (hn : aboutAbsentResource c a = false) :
+    prohibits (.ifPresent false ifs els) a = (applicable ifs.toList a).flatMap (fun x => prohibits x a) ∧
+    (prohibits (.ifPresent false ifs els) a = [] → prohibits c a = []) := by
+  have hca : c ∈ applicable ifs.toList a := by
+    rw [applicable_eq]; exact List.mem_filter.mpr ⟨hc, by simp [hn]⟩
+  have hne : (applicable ifs.toList a).isEmpty = false := by
+    cases h : applicable ifs.toList a with
+    | nil => rw [h] at hca; cases hca
+    | cons _ _ => rfl
+  have e : prohibits (.ifPresent false ifs els) a = (applicable ifs.toList a).flatMap (fun x => prohibits x a) := by
+    rw [prohibits_ifPresent]; simp [ha, hne]
+  exact ⟨e, fun h => List.flatMap_eq_nil_iff.mp (e ▸ h) c hca⟩
+
 /-- Permission is monotone in the action: for every caveat of the registered universe, nested
 conditionals to any depth, if an action is permitted then so is every subset of it (all other
 request data equal). -/
@@ -114,6 +263,21 @@ example : ResSet.prohibitsStr [([], 3), ([97, 98], 1)] (some ([97, 98])) 0 = [.b
 example : prohibits (.ifPresent false (.cons (.apps [(1, 1)]) .nil) 2 : Cav Bytes)
     { Access.bare 0 0 with action := some 2, app := some none } = [] := by decide
 
+-- `unspecified_iff`, `applicable_eq`, `non_resource_inner_forces_if`: an action mask inside a conditional forces the
+-- if-branch although the request names no app; the else-mask (all) is not consulted
+def noAppRead : Access := { Access.bare 0 0 with action := some 1, app := some none }
+example : aboutAbsentResource (.apps [(1, 1)] : Cav Bytes) noAppRead = true := by decide
+example : aboutAbsentResource (.action 2 : Cav Bytes) noAppRead = false := by decide
+example := unspecified_iff (.apps [(1, 1)] : Cav Bytes) noAppRead
+example := non_resource_inner_forces_if (.cons (.apps [(1, 1)]) (.cons (.action 2 : Cav Bytes) .nil)) 31 noAppRead 1 rfl
+  (.action 2) (by simp [CavList.toList]) (by decide)
+example : prohibits (.ifPresent false (.cons (.apps [(1, 1)]) (.cons (.action 2 : Cav Bytes) .nil)) 31) noAppRead = [.forAction] := by
+  decide
+example := resset_permits_iff (fun k : Bytes => k.isEmpty) ResSet.matchPrefix [([97], 3), ([97, 98], 1)] [97, 98, 99] 1
+example := wildcard_is_lone (fun k : UInt64 => k == 0) [(0, 3)] (0, 3) (by decide) (by simp) (by decide)
+example := permit_antitone_in_action (.ifPresent false (.cons (.apps [(1, 3)]) .nil) 3 : Cav Bytes)
+  { Access.bare 0 0 with app := some (some 1) } 3 1 (by decide) (by decide)
+
 end Macaroon.Props.C09
 
 #print axioms Macaroon.Props.C09.resset_permits_iff
@@ -129,3 +293,8 @@ end Macaroon.Props.C09
 #print axioms Macaroon.Props.C09.ifPresent_never_unspecified
 #print axioms Macaroon.Props.C09.permit_antitone_in_action
 #print axioms Macaroon.Props.C09.validate_antitone_in_action
+#print axioms Macaroon.Props.C09.resset_unspecified_iff
+#print axioms Macaroon.Props.C09.viaGetter_unspecified_iff
+#print axioms Macaroon.Props.C09.unspecified_iff
+#print axioms Macaroon.Props.C09.applicable_eq
+#print axioms Macaroon.Props.C09.non_resource_inner_forces_if
